@@ -6,10 +6,14 @@ package dastard
 // re-alignment after lost bytes. Engine A on the real reader (launchLanceroReader), getNextBlock and
 // distributeData with a scripted card (lancero.Lanceroer); the harness plays the core loop.
 // The output is a function of the script (bytes available at each driver read), not of timing.
+// Restart family: two runs of the same source object, each started through the real Configure and Sample
+// (sampleCard paces itself on the card's time stamps, which the script supplies) and ended by the normal stop path.
 
 import (
 	"fmt"
 	"math"
+	"os"
+	"path/filepath"
 	"sync"
 	"testing"
 	"time"
@@ -57,6 +61,29 @@ type v04Script struct {
 	mixAt    int   // the mix is changed before the block with this index is requested (-1 = never)
 	mix      float64
 	devnum   int // number of the (single) active card; card 0 then need not exist at all
+	// restart family only (zero values = the behaviour of the other families)
+	mixChans  []int      // feedback channels that get the mix fraction (nil = all of them)
+	frameRate float64    // frames per second of the card's time stamps (0 = 100 kHz)
+	sample    *v04Script // what the card delivers while the real Sample()/sampleCard looks at it (nil = Sample is bypassed)
+}
+
+func (s *v04Script) mixed(ch int) bool {
+	if s.mixChans == nil {
+		return true
+	}
+	for _, c := range s.mixChans {
+		if c == ch {
+			return true
+		}
+	}
+	return false
+}
+
+func (s *v04Script) rate() float64 {
+	if s.frameRate > 0 {
+		return s.frameRate
+	}
+	return 1e5
 }
 
 // v04Card implements lancero.Lanceroer over a byte stream.
@@ -73,6 +100,45 @@ type v04Card struct {
 	hold     bool // while set, no new data is handed out
 	lastA    int
 	allowed  int // script steps the harness has released so far (lock-step mode)
+	// the sampling session: while `sampling` is set, reads and releases go to `samp` (what the hardware streams
+	// between sampleCard's StartCollector and StopCollector); the run's own stream starts afresh afterwards
+	samp     *v04Card
+	sampling bool
+	scalls   int
+}
+
+// String keeps spew.Sdump(card) in sampleCard short (it would otherwise print every byte of the stream).
+func (c *v04Card) String() string { return "v04Card" }
+
+func (c *v04Card) setSampling(on bool) {
+	c.mu.Lock()
+	c.sampling = on
+	c.scalls = 0
+	c.mu.Unlock()
+}
+
+// load makes the SAME card object deliver another script (the hardware of a later run).
+func (c *v04Card) load(n *v04Card) {
+	c.mu.Lock()
+	c.stream, c.orig, c.avail, c.rate, c.done, c.allowed, c.samp = n.stream, n.orig, n.avail, n.rate, n.done, n.allowed, n.samp
+	c.call, c.released, c.lastA, c.scalls = 0, 0, 0, 0
+	c.closed, c.hold, c.sampling = false, false, false
+	c.mu.Unlock()
+}
+
+// sampler returns the card of the sampling session if one is going on. sampleCard reads until the card's time
+// stamps have advanced by 200 ms; a script that never gets there must end in an error, not in an endless loop.
+func (c *v04Card) sampler() (*v04Card, error) {
+	c.mu.Lock()
+	defer c.mu.Unlock()
+	if !c.sampling || c.samp == nil {
+		return nil, nil
+	}
+	c.scalls++
+	if c.scalls > 200 {
+		return nil, fmt.Errorf("scripted card: the sampling session was read or released %d times and is still going on", c.scalls)
+	}
+	return c.samp, nil
 }
 
 func (c *v04Card) allow(n int) {
@@ -91,12 +157,24 @@ func (c *v04Card) StopCollector() error                           { return nil }
 func (c *v04Card) InspectAdapter() uint32                         { return 0 }
 func (c *v04Card) Wait() (time.Time, time.Duration, error)        { return time.Now(), 0, nil }
 func (c *v04Card) ReleaseBytes(n int) error {
+	if sc, err := c.sampler(); err != nil || sc != nil {
+		if err != nil {
+			return err
+		}
+		return sc.ReleaseBytes(n)
+	}
 	c.mu.Lock()
 	c.released += n
 	c.mu.Unlock()
 	return nil
 }
 func (c *v04Card) AvailableBuffer() ([]byte, time.Time, error) {
+	if sc, err := c.sampler(); err != nil || sc != nil {
+		if err != nil {
+			return nil, time.Time{}, err
+		}
+		return sc.AvailableBuffer()
+	}
 	c.mu.Lock()
 	defer c.mu.Unlock()
 	a := c.lastA
@@ -168,8 +246,11 @@ func (s *v04Script) build() (*v04Card, int) {
 		card.stream = append(card.stream, full[i])
 		card.orig = append(card.orig, i)
 	}
-	card.rate = float64(4*words) * 1e5 // 100 kHz frame rate
-	toCut := func(o int) int {         // offset in the cut stream of original offset o
+	card.rate = float64(4*words) * s.rate() // 100 kHz frame rate unless the script says otherwise
+	if s.sample != nil {
+		card.samp, _ = s.sample.build()
+	}
+	toCut := func(o int) int { // offset in the cut stream of original offset o
 		n := 0
 		for _, p := range card.orig {
 			if p < o {
@@ -184,27 +265,68 @@ func (s *v04Script) build() (*v04Card, int) {
 	return card, len(full)
 }
 
+// v04RunScript: one run of a fresh source; the geometry is set directly (sampleCard is bypassed), the per-start
+// tables are built by the real updateChanOrderMap as Sample would.
 func v04RunScript(x *vexp.X, s *v04Script) vexp.Result {
-	g := s.g
-	words := g.ncols * g.nrows
-	frameSize := 4 * words
 	card, _ := s.build()
-	x.Logf("geometry %dx%d startOff=%d gap=[%d,%d) avail=%v (cut: %v) mixAt=%d mix=%v", g.ncols, g.nrows, s.startOff, s.gapA, s.gapB, s.avail, card.avail, s.mixAt, s.mix)
-
 	ls := &LanceroSource{}
 	ls.name = "Lancero"
 	ls.nsamp = 1
-	dev := &LanceroDevice{devnum: s.devnum, card: card, ncols: g.ncols, nrows: g.nrows, frameSize: frameSize, clockMHz: 125, lsync: 1250 / g.nrows}
+	dev := &LanceroDevice{devnum: s.devnum, card: card}
 	ls.devices = map[int]*LanceroDevice{s.devnum: dev}
-	ls.active = []*LanceroDevice{dev}
 	ls.ncards = 1
-	ls.firstRowChanNum = 1
-	ls.nchan = 2 * words
-	ls.sampleRate = 1e5
-	ls.samplePeriod = 10 * time.Microsecond
-	ls.updateChanOrderMap()
-	ls.mixRequests = make(chan *MixFractionObject, 10)
-	ls.currentMix = make(chan []float64, 10)
+	return v04RunOn(x, ls, dev, card, s)
+}
+
+// v04Lsync is the line period (in 8 ns clock ticks) that goes with the script's frame rate.
+func v04Lsync(s *v04Script) int {
+	return int(125e6/(s.rate()*float64(s.g.nrows)) + 0.5)
+}
+
+// v04RunOn starts the source `ls` (fresh, or left behind by an earlier run) on the card's script, plays the core
+// loop until the run has ended the way a stopped run ends (abortSelf closed, the reader closes its channel, the
+// block goroutine calls stop() and closes nextBlock) and applies the oracle to everything the run delivered.
+// With s.sample set the start goes the way dastard's Start goes: the real Configure (number of rows, line
+// period and NSAMP from the cringeGlobals file), then the real Sample() whose sampleCard finds the number of
+// columns in the card's sampling session; otherwise the geometry is written into the device directly.
+func v04RunOn(x *vexp.X, ls *LanceroSource, dev *LanceroDevice, card *v04Card, s *v04Script) vexp.Result {
+	g := s.g
+	words := g.ncols * g.nrows
+	frameSize := 4 * words
+	x.Logf("geometry %dx%d startOff=%d gap=[%d,%d) avail=%v (cut: %v) mixAt=%d mix=%v mixChans=%v sampled=%v", g.ncols, g.nrows, s.startOff, s.gapA, s.gapB, s.avail, card.avail, s.mixAt, s.mix, s.mixChans, s.sample != nil)
+
+	if s.sample != nil {
+		saved := cringeGlobalsPath
+		defer func() { cringeGlobalsPath = saved }()
+		cringeGlobalsPath = filepath.Join(os.TempDir(), fmt.Sprintf("v04_cringeGlobals_%d.json", os.Getpid()))
+		globals := fmt.Sprintf(`{"SETT":1,"seqln":%d,"lsync":%d,"testpattern":0,"propagationdelay":1,"NSAMP":1,"carddelay":1,"XPT":0}`, g.nrows, v04Lsync(s))
+		if err := os.WriteFile(cringeGlobalsPath, []byte(globals), 0644); err != nil {
+			panic(err)
+		}
+		defer os.Remove(cringeGlobalsPath)
+		if err := ls.Configure(&LanceroSourceConfig{FiberMask: 0xffff, CardDelay: []int{1}, ActiveCards: []int{s.devnum}, FirstRow: 1}); err != nil {
+			return vexp.Result{Violation: "Configure: " + err.Error(), Class: "configure-error"}
+		}
+		card.setSampling(true)
+		err := ls.Sample()
+		card.setSampling(false)
+		if err != nil {
+			return vexp.Result{Violation: "Sample: " + err.Error(), Class: "sample-error"}
+		}
+		if dev.ncols != g.ncols || dev.nrows != g.nrows || ls.nchan != 2*words {
+			return vexp.Result{Violation: fmt.Sprintf("Sample found %d columns x %d rows, %d channels; the card streams %d x %d", dev.ncols, dev.nrows, ls.nchan, g.ncols, g.nrows), Class: "sample-geometry"}
+		}
+	} else {
+		dev.ncols, dev.nrows, dev.frameSize, dev.clockMHz, dev.lsync = g.ncols, g.nrows, frameSize, 125, 1250/g.nrows
+		ls.active = []*LanceroDevice{dev}
+		ls.firstRowChanNum = 1
+		ls.nchan = 2 * words
+		ls.sampleRate = 1e5
+		ls.samplePeriod = 10 * time.Microsecond
+		ls.updateChanOrderMap()
+		ls.mixRequests = make(chan *MixFractionObject, 10)
+		ls.currentMix = make(chan []float64, 10)
+	}
 	if err := ls.PrepareChannels(); err != nil {
 		return vexp.Result{Violation: "PrepareChannels: " + err.Error(), Class: "prepare-error"}
 	}
@@ -219,10 +341,10 @@ func v04RunScript(x *vexp.X, s *v04Script) vexp.Result {
 	if err := ls.StartRun(); err != nil {
 		return vexp.Result{Violation: "StartRun: " + err.Error(), Class: "startrun-error"}
 	}
-	go func() {
-		<-card.done
-		closeIfOpen(ls.abortSelf)
-	}()
+	go func(done, abort chan struct{}) { // this run's channels: a later run of the same objects has its own
+		<-done
+		closeIfOpen(abort)
+	}(card.done, ls.abortSelf)
 	defer func() {
 		// never leave a reader goroutine behind (it panics after 10 s without a successful read)
 		card.setHold(false)
@@ -244,8 +366,10 @@ func v04RunScript(x *vexp.X, s *v04Script) vexp.Result {
 			var idx []int
 			var fr []float64
 			for i := 1; i < ls.nchan; i += 2 {
-				idx = append(idx, i)
-				fr = append(fr, s.mix)
+				if s.mixed(i) {
+					idx = append(idx, i)
+					fr = append(fr, s.mix)
+				}
 			}
 			if _, err := ls.ConfigureMixFraction(&MixFractionObject{ChannelIndices: idx, MixFractions: fr}); err != nil {
 				return vexp.Result{Violation: "ConfigureMixFraction: " + err.Error(), Class: "mix-error"}
@@ -360,7 +484,7 @@ func v04RunScript(x *vexp.X, s *v04Script) vexp.Result {
 					fbPrev = float64(v04FbTag(delivered[i-1], r, c) &^ 3)
 				}
 				scale := 0.0
-				if mixFrom >= 0 && i >= mixFrom {
+				if mixFrom >= 0 && i >= mixFrom && s.mixed(ch) {
 					scale = s.mix / 1.0 // nsamp = 1
 				}
 				want := fbPrev + scale*float64(v04Err(delivered[i], r, c))
@@ -499,11 +623,66 @@ func v04GapChunkings(fs, startOff, end int) []v04Chunking {
 	return cs
 }
 
+// restart family: the card's time stamps run at 20 frames per second, so that the 200 ms of data that sampleCard
+// wants to see (it measures them on the card's time stamps, not on the wall clock) are 4 frames, not 20000.
+const v04SlowRate = 20
+
+// v04SampleScript is what the card streams while sampleCard looks at it: 8 frames starting one word into a
+// frame. Variant 0: the first read (whose data sampleCard ignores and does not release) holds two frame starts,
+// three more reads that end inside a frame; variant 1: two reads that together hold a single frame start (the
+// frame-bit search has to be repeated), then one long read.
+func v04SampleScript(g v04Geom, variant int) *v04Script {
+	const frames = 8
+	fs := 4 * g.ncols * g.nrows
+	s := &v04Script{g: g, startOff: 1, mixAt: -1, frameRate: v04SlowRate}
+	s.ext = make([][]bool, frames)
+	for f := range s.ext {
+		s.ext[f] = make([]bool, g.nrows)
+	}
+	f := func(frames, extra int) int { return frames*fs - 4 + extra }
+	if variant == 0 {
+		s.avail = []int{f(2, 4), f(3, 8), f(5, 8), f(7, 0)}
+	} else {
+		s.avail = []int{f(1, 0), f(1, 8), f(6, 0)}
+	}
+	return s
+}
+
+// v04Restart: two runs of the SAME LanceroSource, LanceroDevice and card objects, each started the way dastard's
+// Start does it (real Configure, Sample/sampleCard/updateChanOrderMap, PrepareChannels, PrepareRun, StartRun) and
+// ended the way a stopped run ends. Both runs are held to the same oracle as a run of a fresh source: whatever
+// the first run left behind in the source must not show in the second.
+func v04Restart(x *vexp.X, s1, s2 *v04Script) vexp.Result {
+	card, _ := s1.build()
+	ls := &LanceroSource{}
+	ls.name = "Lancero"
+	ls.nsamp = 1
+	ls.channelsPerPixel = 2
+	dev := &LanceroDevice{devnum: s1.devnum, card: card}
+	ls.devices = map[int]*LanceroDevice{s1.devnum: dev}
+	ls.ncards = 1
+	r1 := v04RunOn(x, ls, dev, card, s1)
+	if r1.Violation != "" {
+		r1.Violation = "first run of the source: " + r1.Violation
+		return r1
+	}
+	x.Logf("---- the run has ended; the same source is started again")
+	c2, _ := s2.build()
+	card.load(c2)
+	r2 := v04RunOn(x, ls, dev, card, s2)
+	if r2.Violation != "" {
+		r2.Violation = fmt.Sprintf("second run of the same source object (first run: %dx%d, mix %v on channels %v from block %d; it ended normally): ", s1.g.ncols, s1.g.nrows, s1.mix, s1.mixChans, s1.mixAt) + r2.Violation
+		r2.Class = "second-run/" + r2.Class
+		return r2
+	}
+	return vexp.Result{Nontrivial: r1.Nontrivial && r2.Nontrivial, Outcome: r1.Outcome + "||" + r2.Outcome}
+}
+
 func TestVerifC04(t *testing.T) {
 	r := vexp.NewRunner("C04")
 	r.CrashTrace = true
 	defer r.Finish()
-	r.SetBound(fmt.Sprintf("geometries (columns x rows) in {1,2,3}x{2,3}, %d frames (gap family: 32) of position-tagged words, stream starting 0-2 words into a frame; the active card numbered 0 or 1; chunkings: every way to make 1-3 driver reads end at offsets from a grid of byte positions (frame-aligned, word-aligned and mid-word, shorter and longer than 3 frames); external-trigger flag rising at every single (frame,row) and at pairs; mix fraction in {0.5,-1.5,400} switched on before block 0, 1 or 2; one gap of lost words of 8 lengths (1 word .. 3 frames + a row, never a whole number of frames) starting at every word offset of a three-frame window around a read boundary, for 6 chunkings (frame-aligned, not aligned, a too-short read after the loss, one long read)", v04Frames))
+	r.SetBound(fmt.Sprintf("geometries (columns x rows) in {1,2,3}x{2,3}, %d frames (gap family: 32) of position-tagged words, stream starting 0-2 words into a frame; the active card numbered 0 or 1; chunkings: every way to make 1-3 driver reads end at offsets from a grid of byte positions (frame-aligned, word-aligned and mid-word, shorter and longer than 3 frames); external-trigger flag rising at every single (frame,row) and at pairs; mix fraction in {0.5,-1.5,400} switched on before block 0, 1 or 2; one gap of lost words of 8 lengths (1 word .. 3 frames + a row, never a whole number of frames) starting at every word offset of a three-frame window around a read boundary, for 6 chunkings (frame-aligned, not aligned, a too-short read after the loss, one long read); restart family: every geometry x start offset x {no mix, 0.5 on all feedback channels from block 0, 400 on channel 1 from block 1} in a first run, then on the same source object every geometry (same or different) x start offset x {no mix, -1.5 on all from block 1, 0.5 on the last feedback channel from block 0} in a second run, both started through the real Configure/Sample/sampleCard/updateChanOrderMap and ended by the normal stop path, one external-trigger pulse in each run", v04Frames))
 	var geoms []v04Geom
 	for c := 1; c <= 3; c++ {
 		for rr := 2; rr <= 3; rr++ { // one row: every word carries the frame bit, frames cannot be told apart
@@ -597,6 +776,40 @@ func TestVerifC04(t *testing.T) {
 				s.mix = []float64{0.5, -1.5, 400}[x.Choose(3)]
 				s.mixAt = x.Choose(3)
 				return v04RunScript(x, s)
+			})
+			// family 5: a second run on the same source object, with the same or another geometry; a mix fraction may
+			// be set in either run (on all feedback channels, or on a single one). Both starts go through the real
+			// Configure and Sample (sampleCard on a scripted sampling session).
+			r.DFS(fmt.Sprintf("restart/%dx%d/start%d", g.ncols, g.nrows, startOff), -1, func(x *vexp.X) vexp.Result {
+				mk := func(g v04Geom, startOff, variant int) *v04Script {
+					fs := 4 * g.ncols * g.nrows
+					s := &v04Script{g: g, startOff: startOff, ext: noExt(g), mixAt: -1, frameRate: v04SlowRate, sample: v04SampleScript(g, variant)}
+					s.avail = []int{3*fs - 4*startOff, 7*fs - 4*startOff + 2, 10*fs - 4*startOff, v04Frames*fs - 4*startOff}
+					s.ext[6][g.nrows-1] = true
+					s.devnum = startOff & 1
+					return s
+				}
+				s1 := mk(g, startOff, 0)
+				switch x.Choose(3) {
+				case 1:
+					s1.mix, s1.mixAt = 0.5, 0
+				case 2:
+					s1.mix, s1.mixAt, s1.mixChans = 400, 1, []int{1}
+				}
+				g2 := geoms[x.Choose(len(geoms))]
+				n2 := g2.ncols * g2.nrows
+				if n2 > 3 {
+					n2 = 3
+				}
+				s2 := mk(g2, x.Choose(n2), 1)
+				s2.devnum = s1.devnum
+				switch x.Choose(3) {
+				case 1:
+					s2.mix, s2.mixAt = -1.5, 1
+				case 2:
+					s2.mix, s2.mixAt, s2.mixChans = 0.5, 0, []int{2*g2.ncols*g2.nrows - 1}
+				}
+				return v04Restart(x, s1, s2)
 			})
 			// family 4: a gap of lost words, at every word offset of a three-frame window around a read boundary
 			// (last frame of the read before it, first and second frame of the read after it: a loss noticed at the
